@@ -12,6 +12,10 @@ MANIFEST = {
           'claimant; a local claim iff Slot.route executes locally, a peer claim iff Slot.route answers MOVED / forwards to exactly that peer), C14_migrating (advertised at the source '
           'iff the proxy\'s task state for that range list is PreCheck, otherwise - later phases, or no task at all on a bystander - at the destination), C14_states about Model/Topo.v, '
           'which mirrors should_ignore_slots, gen_cluster_nodes_helper (V1/V2), gen_cluster_slots_helper, the local/remote composition in cluster.rs and MigrationMap::get_states. '
+          'Over broker histories (Proofs/TopoProofsBroker*.v): meta_of_vproxy = what a proxy installs from the broker\'s per-proxy view (coordinator filter_proxy_masters + HashMap inserts + ProxyClusterMeta::new); '
+          'C14_view_core_broker: for every store reached by ANY broker operation sequence, every limit, address and served proxy view, the installed claims satisfy wf_view_core (wf_view without NoDup; '
+          'NoDup fails for duplicated EMPTY stable slot ranges of drained masters on one proxy and is not needed by any conclusion); C14_unique_broker / C14_migrating_broker: the conclusions of C14_unique / C14_migrating with '
+          'reachable_any s and the view equation as the only hypotheses (every slot < 16384 of a proxy in a cluster is advertised exactly once; a visible MIGRATING entry is advertised at vm_src_proxy iff the task state is PreCheck, else at vm_dst_proxy). '
           'The model is tied to the code by running the real generators and a real proxy on the same layouts x every phase x both versions and comparing parsed output over all 16384 slots.',
   'note': 'Coq kernel; closed under the global context; extraction + OCaml driver; the NODES text / SLOTS reply parsers of the harness are trusted (node ids are only length-checked). '
           'wf_view: stable ranges disjoint from everything, a migrating slot claimed exactly twice (MIGRATING + IMPORTING slot range with the same range list). The bystander clause is the recorded reading '
